@@ -2,7 +2,13 @@
 
     Stage (a): the pure helpers (Model/DeployHelpers.v), for ALL inputs.
     Stage (b): the Notary-bootstrap signature exchange as a protocol
-    (Model/DeployProto.v), for ALL committee sizes and ALL schedules. *)
+    (Model/DeployProto.v), for ALL committee sizes and ALL schedules. The
+    model has two variants: [as_repaired] describes /repo's working tree
+    (since fix commits 70faaf5 and d247004), [as_pinned] the code before them;
+    the main claims are about [as_repaired], the last section documents why
+    the fixes were needed.
+    Stage (c) (end-to-end deploy.Deploy) is run, not proved: its expected
+    final state is [DeployProto.final_state]. *)
 From Verif Require Import Base.Prelude Model.DeployHelpers Proofs.DeployHelpers
   Model.DeployProto Proofs.DeployProto.
 Local Open Scope Z_scope.
@@ -189,34 +195,38 @@ Example C13_shared_nonvacuous :
      176; 3; 97; 163; 150; 23; 122; 156; 180; 16; 255; 97; 242; 0; 21; 173]%N.
 Proof. vm_compute. repeat split; reflexivity. Qed.
 
-(** * (b) Notary bootstrap — deploy/notary.go:165-736 as a protocol
+(** * (b) Notary bootstrap — deploy/notary.go:165-744 as a protocol
     (Model/DeployProto.v).  A history is ANY list of labels: members tick in
     any interleaving, restart at any point (closure state lost), pooled
     transactions are executed in any order and with any delay, blocks pass,
-    and a foreign account may rewrite any signature domain ([LGarbage]). *)
+    and a foreign account may rewrite any signature domain ([LGarbage]).
+    The working tree is the variant [as_repaired]. *)
 
-(** Safety, for every committee size and every history:
-    - whenever the leader finalises the committee witness (notary.go:472-494)
+(** Safety, for every committee size and every history (stated for both
+    variants; the working tree is [v = as_repaired]):
+    - whenever the leader finalises the committee witness (notary.go:473-503)
       the script has exactly M = n-(n-1)/2 signatures: its own first, then
-      M-1 remote ones attributed to pairwise distinct indices i in 0..n-2,
-      each of which verified under committee[i] when it was collected;
+      M-1 remote ones attributed to pairwise distinct indices i of the
+      collection loop (1..n-1 in the working tree), each of which verified
+      under committee[i] when it was collected;
     - a designation transaction is accepted by the node only with a valid
       witness (M signatures over this very transaction, in key order);
     - the role is designated only after such a transaction was sent. *)
-Theorem C13_bootstrap_safe : forall n maxinc h0 ls,
+Theorem C13_bootstrap_safe : forall v n maxinc h0 ls,
   (1 <= n)%nat ->
-  let r := prun n maxinc (pinit h0) ls in
+  let r := prun v n maxinc (pinit h0) ls in
   (forall d sc, In (EAssembled d sc) (snd r) ->
      length sc = maj_m n /\ hd_error sc = Some (mkSig 0 d) /\
-     NoDup (map sv_by (tail sc)) /\ Forall (fun s => (sv_by s + 1 < n)%nat) (tail sc)) /\
+     NoDup (map sv_by (tail sc)) /\
+     Forall (fun s => (sv_by s < v_first v + (n - 1))%nat) (tail sc)) /\
   (forall id d sc, In (ESent id (WDesignate d sc)) (snd r) ->
      valid_witness n d sc = true /\ length sc = maj_m n) /\
   (c_designated (p_chain (fst r)) = true ->
      exists id d sc, In (ESent id (WDesignate d sc)) (snd r) /\
                      valid_witness n d sc = true /\ length sc = maj_m n).
 Proof.
-  intros n maxinc h0 ls Hn r.
-  pose proof (prun_ginv_True n maxinc ls (pinit h0) [] Hn (ginv_init _ n h0)) as G.
+  intros v n maxinc h0 ls Hn r.
+  pose proof (prun_ginv_True v n maxinc ls (pinit h0) [] Hn (ginv_init _ _ n h0)) as G.
   fold r in G. cbn [app] in G. destruct G as (_ & _ & G3 & G4 & G5).
   split; [|split].
   - intros d sc Hin. exact (proj1 (G4 d sc Hin)).
@@ -226,89 +236,134 @@ Proof.
 Qed.
 Print Assumptions C13_bootstrap_safe.
 
-(** What [C13_bootstrap_safe] does not say, and the model refutes once a
-    foreign account owns a signature domain: that every signature of an
-    assembled script is over the current transaction. The map of collected
-    signatures is not cleared when the transaction is re-made
-    (notary.go:346-349 against 213-219); the node then refuses the witness. *)
-Definition stale_history : list label :=
-  [ LTick 0 1 []; LLandAll; LTick 0 1 []; LLandAll;                 (* leader registers, publishes A *)
-    LTick 1 0 []; LLandAll; LTick 1 0 []; LLandAll;                 (* member 1 signs A *)
-    LGarbage 0 [mkRec (120, 1) (mkSig 9 (0, 0))];                   (* foreign records with A's checksum *)
-    LGarbage 2 [mkRec (120, 1) (mkSig 9 (0, 0))];
-    LTick 0 2 [];                                                   (* 2 invalid + M > n: re-publish B, pending *)
-    LGarbage 0 []; LGarbage 2 [];
-    LTick 0 3 [];                                                   (* B not yet executed: collects 1's signature of A *)
-    LLandAll;                                                       (* B executed *)
-    LGarbage 2 [mkRec (120, 2) (mkSig 2 (120, 2))];                 (* a record for B in domain 2 *)
-    LTick 0 4 [1; 2]%nat ].                                         (* assembles: A-signature next to B-signatures *)
-Theorem C13_bootstrap_stale_signature : exists d sc s,
-  In (EAssembled d sc) (snd (prun 4 5760 (pinit 0) stale_history)) /\ In s sc /\ sv_over s <> d.
-Proof.
-  exists (120, 2), [mkSig 0 (120, 2); mkSig 1 (120, 1); mkSig 2 (120, 2)], (mkSig 1 (120, 1)).
-  split; [vm_compute; tauto|]. split; [right; left; reflexivity|]. cbn. congruence.
-Qed.
-Print Assumptions C13_bootstrap_stale_signature.
-
-(** Liveness as the property wants it: with a live majority that includes
-    the leader, the stage completes. Even the weakest reading — SOME history
-    of the live members gets the role designated — is stated here. *)
-Definition live_count (n : nat) (live : nat -> bool) : nat := length (List.filter live (seq 0 n)).
-Definition majority_with_leader (n : nat) (live : nat -> bool) : Prop :=
-  live 0%nat = true /\ (maj_m n <= live_count n live)%nat.
-Definition completes (n : nat) (live : nat -> bool) : Prop :=
-  exists maxinc h0 ls, Forall (honest live) ls /\
-    c_designated (p_chain (fst (prun n maxinc (pinit h0) ls))) = true.
-Definition C13_bootstrap_any_majority : Prop :=
-  forall n live, (2 <= n)%nat -> majority_with_leader n live -> completes n live.
-
-(** What holds instead, for every n >= 2 and every live set: the leader's
-    loop reads domains 0..n-2 and checks domain i with committee[i]
-    (notary.go:390-391,426) while member k writes domain k (629), so only
-    live members 1..n-2 can ever be counted. With fewer than M-1 of them no
-    history at all — fair or not — assembles a witness, sends a designation or
-    designates the role. *)
-Theorem C13_bootstrap_blocked : forall n maxinc h0 live ls,
-  (2 <= n)%nat -> (readable n live < maj_m n - 1)%nat ->
+(** A minority cannot designate: if fewer than M-1 of the members the
+    leader's loop reads (1..n-1 in the working tree) are live, NO history of
+    the live members — fair or not, with restarts and delays — assembles a
+    witness, sends a designation or gets the role designated. *)
+Theorem C13_bootstrap_needs_majority : forall v n maxinc h0 live ls,
+  (2 <= n)%nat -> (readable v n live < maj_m n - 1)%nat ->
   Forall (honest live) ls ->
-  let r := prun n maxinc (pinit h0) ls in
+  let r := prun v n maxinc (pinit h0) ls in
   (forall d sc, ~ In (EAssembled d sc) (snd r)) /\
   (forall id d sc, ~ In (ESent id (WDesignate d sc)) (snd r)) /\
   c_designated (p_chain (fst r)) = false.
 Proof. exact blocked. Qed.
-Print Assumptions C13_bootstrap_blocked.
+Print Assumptions C13_bootstrap_needs_majority.
 
-(** Refutation, witness n = 2 with both members live (a majority of 2 that
-    includes the leader): domain 0 is never written, domain 1 never read. *)
-Theorem C13_bootstrap_any_majority_refuted : ~ C13_bootstrap_any_majority.
+(** Liveness for the working tree, committee sizes 2..7 (the property's
+    range) and EVERY live set containing the leader: on the fair round-robin
+    schedule (every live member ticks, everything pooled is executed, a block
+    passes) the role is designated within 8 rounds IF AND ONLY IF a majority
+    M of the members is live — whatever order the scheduler proposes for the
+    map ([assemble_repaired_order]: the repaired code sorts). In particular
+    n = 2 completes and any majority that includes the leader suffices.
+    [_partial]: computed for n in 2..7; for symbolic n only the "only if"
+    direction is proved ([C13_bootstrap_needs_majority]); inevitability over
+    all infinite fair schedules is not stated (possibility on the canonical
+    fair schedule is). *)
+Theorem C13_bootstrap_any_majority_partial : forall n mask,
+  (2 <= n <= 7)%nat -> length mask = n -> live_of mask 0 = true ->
+  c_designated (p_chain (fst (prun as_repaired n 5760 (pinit 0) (fair_rounds 8 (members mask) 1 [])))) =
+  (maj_m n <=? live_count n (live_of mask))%nat.
+Proof.
+  assert (Hall : forallb (fun n => forallb (fun mask => negb (live_of mask 0) || repaired_check n mask)
+                                           (all_masks n)) [2; 3; 4; 5; 6; 7]%nat = true)
+    by (vm_compute; reflexivity).
+  intros n mask Hn Hl H0.
+  rewrite forallb_forall in Hall.
+  assert (Hin : In n [2; 3; 4; 5; 6; 7]%nat) by (cbn; lia).
+  specialize (Hall n Hin). rewrite forallb_forall in Hall.
+  specialize (Hall mask (all_masks_complete n mask Hl)). rewrite H0 in Hall. cbn [negb orb] in Hall.
+  unfold repaired_check in Hall. apply Bool.eqb_prop in Hall. exact Hall.
+Qed.
+Print Assumptions C13_bootstrap_any_majority_partial.
+
+(** What [C13_bootstrap_safe] does not say, and the model refutes once a
+    foreign account owns signature domains: that every signature of an
+    assembled script is over the current transaction. The map of collected
+    signatures is not cleared when the transaction is re-made
+    (notary.go:346-349 against 213-219); the node then refuses the witness
+    (nothing invalid reaches the chain, by [C13_bootstrap_safe]). Model
+    observation only: it needs foreign-owned signature domains and was not
+    replayed on the real code. *)
+Definition stale_history : list label :=
+  [ LTick 0 1 []; LLandAll; LTick 0 1 []; LLandAll;                 (* leader registers, publishes A *)
+    LTick 1 0 []; LLandAll; LTick 1 0 []; LLandAll;                 (* member 1 signs A *)
+    LGarbage 2 [mkRec (120, 1) (mkSig 9 (0, 0))];                   (* foreign records with A's checksum *)
+    LGarbage 3 [mkRec (120, 1) (mkSig 9 (0, 0))];
+    LTick 0 2 [];                                                   (* 2 invalid + M > n: re-publish B, pending *)
+    LGarbage 2 []; LGarbage 3 [];
+    LTick 0 3 [];                                                   (* B not yet executed: collects 1's signature of A *)
+    LLandAll;                                                       (* B executed *)
+    LGarbage 2 [mkRec (120, 2) (mkSig 2 (120, 2))];                 (* a record for B in domain 2 *)
+    LTick 0 4 [] ].                                                 (* assembles: A-signature next to B-signatures *)
+Theorem C13_bootstrap_stale_signature : exists d sc s,
+  In (EAssembled d sc) (snd (prun as_repaired 4 5760 (pinit 0) stale_history)) /\ In s sc /\ sv_over s <> d.
+Proof.
+  exists (120, 2), [mkSig 0 (120, 2); mkSig 1 (120, 1); mkSig 2 (120, 2)], (mkSig 1 (120, 1)).
+  split; [apply first_assembled_In; vm_compute; reflexivity|]. split; [right; left; reflexivity|]. cbn. congruence.
+Qed.
+Print Assumptions C13_bootstrap_stale_signature.
+
+(** Non-vacuity for the working tree: histories that complete (n = 2 and the
+    live set {0, n-1} included), and one that cannot (no majority). *)
+Example C13_bootstrap_nonvacuous :
+  let des n live order r := c_designated (p_chain (fst (prun as_repaired n 5760 (pinit 0) (fair_rounds r live 1 order)))) in
+  (des 1 [0] [] 2, des 2 [0; 1] [] 5, des 3 [0; 1; 2] [] 5, des 3 [0; 2] [] 5, des 4 [0; 1; 2; 3] [2; 1] 5,
+   des 4 [0; 2; 3] [] 5, des 7 [0; 4; 5; 6] [6; 5; 4] 5, des 3 [0] [] 200, des 4 [0; 3] [] 200)%nat
+  = (true, true, true, true, true, true, true, false, false).
+Proof. vm_compute. reflexivity. Qed.
+
+(** * Historical: the code before fix commits 70faaf5 / d247004
+    ([as_pinned]).  These theorems document why the fixes were needed; both
+    defects were observed on the real code at that commit (n = 2 never
+    designated; n = 3 with members {0,2} never did; witnesses [0 2 1] and
+    [0 3 1 2] refused with ErrInvalidSignature). *)
+
+Definition majority_with_leader (n : nat) (live : nat -> bool) : Prop :=
+  live 0%nat = true /\ (maj_m n <= live_count n live)%nat.
+Definition completes (v : variant) (n : nat) (live : nat -> bool) : Prop :=
+  exists maxinc h0 ls, Forall (honest live) ls /\
+    c_designated (p_chain (fst (prun v n maxinc (pinit h0) ls))) = true.
+(** "With a live majority that includes the leader SOME history of the live
+    members gets the role designated" — the weakest reading of liveness. *)
+Definition any_majority_completes (v : variant) : Prop :=
+  forall n live, (2 <= n)%nat -> majority_with_leader n live -> completes v n live.
+
+(** The old leader loop read domains 0..n-2 and checked domain i with
+    committee[i] while member k writes domain k, so only live members
+    1..n-2 could ever be counted ([C13_bootstrap_needs_majority] with
+    [readable as_pinned]). Refutation, witness n = 2 with both members live:
+    domain 0 was never written, domain 1 never read. *)
+Theorem C13_bootstrap_any_majority_refuted : ~ any_majority_completes as_pinned.
 Proof.
   intros H. destruct (H 2%nat (fun _ => true)) as (maxinc & h0 & ls & Hh & Hd).
   - lia.
   - split; [reflexivity|]. vm_compute. lia.
-  - pose proof (blocked 2 maxinc h0 (fun _ => true) ls ltac:(lia) ltac:(vm_compute; lia) Hh) as (_ & _ & Hf).
+  - pose proof (blocked as_pinned 2 maxinc h0 (fun _ => true) ls ltac:(lia) ltac:(vm_compute; lia) Hh) as (_ & _ & Hf).
     cbv zeta in Hf. congruence.
 Qed.
 Print Assumptions C13_bootstrap_any_majority_refuted.
 
 (** Second witness: n = 3 with the leader and the LAST member live (2 of 3). *)
 Theorem C13_bootstrap_last_member_ignored :
-  majority_with_leader 3 (live_of [true; false; true]) /\ ~ completes 3 (live_of [true; false; true]).
+  majority_with_leader 3 (live_of [true; false; true]) /\ ~ completes as_pinned 3 (live_of [true; false; true]).
 Proof.
   split; [split; [reflexivity|vm_compute; lia]|].
   intros (maxinc & h0 & ls & Hh & Hd).
-  pose proof (blocked 3 maxinc h0 (live_of [true; false; true]) ls ltac:(lia) ltac:(vm_compute; lia) Hh) as (_ & _ & Hf).
+  pose proof (blocked as_pinned 3 maxinc h0 (live_of [true; false; true]) ls ltac:(lia) ltac:(vm_compute; lia) Hh) as (_ & _ & Hf).
   cbv zeta in Hf. congruence.
 Qed.
 Print Assumptions C13_bootstrap_last_member_ignored.
 
-(** Partial liveness, committee sizes 2..7 (the property's range) and EVERY
-    live set containing the leader: on the fair round-robin schedule, with
-    the Go map iterated in ascending key order, the role is designated within
-    8 rounds IF AND ONLY IF at least M-1 of the members 1..n-2 are live. *)
-Theorem C13_bootstrap_partial : forall n mask,
+(** What did hold for the old code, committee sizes 2..7 and every live set
+    containing the leader: on the fair schedule, with the Go map iterated in
+    ascending key order, designated within 8 rounds iff at least M-1 of the
+    members 1..n-2 were live. *)
+Theorem C13_bootstrap_pinned_partial : forall n mask,
   (2 <= n <= 7)%nat -> length mask = n -> live_of mask 0 = true ->
-  c_designated (p_chain (fst (prun n 5760 (pinit 0) (fair_rounds 8 (members mask) 1 (seq 0 n))))) =
-  (maj_m n - 1 <=? readable n (live_of mask))%nat.
+  c_designated (p_chain (fst (prun as_pinned n 5760 (pinit 0) (fair_rounds 8 (members mask) 1 (seq 0 n))))) =
+  (maj_m n - 1 <=? readable as_pinned n (live_of mask))%nat.
 Proof.
   assert (Hall : forallb (fun n => forallb (fun mask => negb (live_of mask 0) || partial_check n mask)
                                            (all_masks n)) [2; 3; 4; 5; 6; 7]%nat = true)
@@ -320,17 +375,17 @@ Proof.
   specialize (Hall mask (all_masks_complete n mask Hl)). rewrite H0 in Hall. cbn [negb orb] in Hall.
   unfold partial_check in Hall. apply Bool.eqb_prop in Hall. exact Hall.
 Qed.
-Print Assumptions C13_bootstrap_partial.
+Print Assumptions C13_bootstrap_pinned_partial.
 
-(** The order in which the collected signatures are appended is that of a
-    Go map range (notary.go:478,486). n = 4, everybody live, fair schedule,
-    the map visited as 2,1: the assembled script has M valid signatures of
-    distinct members over the current transaction — and the node refuses it
-    (RPC -508, which the tick only logs, notary.go:501-503). The same
-    transaction is refused again every round; after 100 rounds the role is
-    still not designated (the shared data live 120 blocks). *)
+(** The collected signatures were appended in the order of a Go map range.
+    n = 4, everybody live, fair schedule, the map visited as 2,1: the
+    assembled script has M valid signatures of distinct members over the
+    current transaction — and the node refuses it (RPC -508, which the tick
+    only logs). The same transaction is refused again every round; after 100
+    rounds the role is still not designated (the shared data live 120
+    blocks). *)
 Theorem C13_bootstrap_order_refuted :
-  let r := prun 4 5760 (pinit 0) (fair_rounds 100 [0; 1; 2; 3]%nat 1 [2; 1]%nat) in
+  let r := prun as_pinned 4 5760 (pinit 0) (fair_rounds 100 [0; 1; 2; 3]%nat 1 [2; 1]%nat) in
   c_designated (p_chain (fst r)) = false /\
   exists d sc,
     In (EAssembled d sc) (snd r) /\
@@ -347,10 +402,9 @@ Proof.
 Qed.
 Print Assumptions C13_bootstrap_order_refuted.
 
-(** Non-vacuity: histories that do complete, and that visibly do not. *)
-Example C13_bootstrap_nonvacuous :
-  let des n live order r := c_designated (p_chain (fst (prun n 5760 (pinit 0) (fair_rounds r live 1 order)))) in
-  (des 1 [0] [] 2, des 2 [0; 1] [] 200, des 3 [0; 1; 2] [1] 6, des 3 [0; 2] [] 200, des 3 [0; 1] [1] 6,
-   des 4 [0; 1; 2; 3] [1; 2] 6, des 4 [0; 2; 3] [] 200, des 7 [0; 1; 2; 3; 4; 5; 6] [1; 2; 3] 6)%nat
-  = (true, false, true, false, true, true, false, true).
+Example C13_bootstrap_pinned_nonvacuous :
+  let des n live order r := c_designated (p_chain (fst (prun as_pinned n 5760 (pinit 0) (fair_rounds r live 1 order)))) in
+  (des 2 [0; 1] [] 200, des 3 [0; 1; 2] [1] 6, des 3 [0; 2] [] 200, des 4 [0; 1; 2; 3] [1; 2] 6,
+   des 4 [0; 1; 2; 3] [2; 1] 100, des 4 [0; 2; 3] [] 200)%nat
+  = (false, true, false, true, false, false).
 Proof. vm_compute. reflexivity. Qed.
